@@ -5,6 +5,7 @@ import Crng.Pickle
 import Crng.Rewriter
 import Crng.Tokens
 import Crng.Validate
+import Crng.Rx
 /-! stateless one-line-in / one-line-out drivers -/
 namespace Drv.Misc
 open Drv
@@ -57,4 +58,12 @@ def val : List String → String
     let (k, e) := validatePacket (arg b) l m
     s!"{hexOrDash k} {errName e}"
   | _ => "bad-op"
+open Crng.Rx in
+def rx : List String → String
+  | ["m", re, s] => let c := compile (arg re); if !c.ok then "unsupported" else if isMatch c (arg s) then "1" else "0"
+  | ["x", re, t, s] => let c := compile (arg re); if !c.ok then "unsupported" else
+      match matchExpand c (arg s) (arg t) with | some o => hexOrDash o | none => "nomatch"
+  | ["r", re, t, s] => let c := compile (arg re); if !c.ok then "unsupported" else hexOrDash (replaceAll c (arg s) (arg t))
+  | _ => "bad-op"
 end Drv.Misc
+
